@@ -1,4 +1,5 @@
 """C11 — notifications are queued exactly once, in order, without disturbing RPCs."""
+import re
 from props._session import SessionCheck, rpc_states, benign_notification
 from core import unhexs
 from cases import session_gen as SG
@@ -34,6 +35,12 @@ class C11(SessionCheck):
             out.append({'kind': 'e2e', 'sc': {'transport': 'unix', 'profile': ['default', 'junos'][i % 2], 'threads': 1, 'per_thread': 2, 'window': 1,
                                               'notifs': 0, 'burst': 1500 if tier == 'quick' else 1500 * 4 ** i, 'seg': 'whole', 'timeout': 4,
                                               'seed': rng.randrange(1 << 30)}})
+        for i in range(1 if tier == 'quick' else 4):
+            # notifications of very different sizes right behind one another, on a machine where building the object for a large one
+            # takes a while: arrival order is the order in which they are taken
+            out.append({'kind': 'e2e', 'sc': {'transport': ['unix', 'ssh', 'tls'][i % 3], 'profile': ['default', 'junos'][i % 2], 'threads': 1, 'per_thread': 1, 'window': 1,
+                                              'notifs': 0, 'burst': 9 + 4 * i, 'mixed_sizes': True, 'slow_construct': True, 'seg': 'whole', 'timeout': 6,
+                                              'seed': rng.randrange(1 << 30)}})
         return out
 
     def oracle(self, case, io):
@@ -44,7 +51,8 @@ class C11(SessionCheck):
             from impl.e2e import notif_text
             # in the order in which the server put them on the wire (several may be placed into one batch in any order)
             want = io.get('notifs_emitted')
-            if want is None or sorted(want) != sorted(notif_text(k) for k in range(1, io['notifs_sent'] + 1)):
+            strip_detail = lambda t: re.sub(r'<detail>.*</detail>', '', t, flags=re.S)
+            if want is None or sorted(strip_detail(t) for t in want) != sorted(notif_text(k) for k in range(1, io['notifs_sent'] + 1)):
                 return ('C11:harness', 'the fake server did not emit the notifications it counted')
             if io['notifs'] != want:
                 return ('C11:notification-lost-or-reordered@' + sc['profile'], 'take_notification returned %d of %d notifications / wrong order or text' % (len(io['notifs']), len(want)))
